@@ -25,6 +25,44 @@ def T_gd_ssc(rng, v=0):
     return p, dict(points=[x0, x, xs, x - xs], exprs=[f(x) - fs, (x0 - xs) ** 2], funcs=[f])
 
 
+def T_metrics(rng, v=0):
+    """several performance metrics; which one is active at the optimum, and its position in the list, varies with the variant"""
+    from PEPit import PEP
+    from PEPit.functions import SmoothStronglyConvexFunction
+    mu, L = 0.1, 1.0
+    p = PEP()
+    f = p.declare_function(SmoothStronglyConvexFunction, mu=mu, L=L)
+    xs = f.stationary_point()
+    x0 = p.set_initial_point()
+    p.set_initial_condition((x0 - xs) ** 2 <= 1)
+    x1 = x0 - f.gradient(x0) / L
+    d = (x1 - xs) ** 2
+    mets = [d + 1, 3 * d + 0.5, 2 * (f(x1) - f(xs)) + 1.2]           # the first one is the smallest at the optimum (0.81 + 1)
+    k = v % 3
+    mets = mets[k:] + mets[:k]
+    for m in mets:
+        p.set_performance_metric(m)
+    return p, dict(points=[x0, x1, xs], exprs=[d], funcs=[f])
+
+
+def T_scaled(rng, v=0):
+    """a badly scaled but legitimate model: radius 50 and an auxiliary unit vector orthogonal to what the method sees"""
+    from PEPit import PEP
+    from PEPit.functions import SmoothStronglyConvexFunction
+    R = [50., 20.][v % 2]
+    p = PEP()
+    f = p.declare_function(SmoothStronglyConvexFunction, L=1., mu=.1)
+    xs = f.stationary_point()
+    x0 = p.set_initial_point()
+    g0 = f.gradient(x0)
+    x1 = x0 - g0
+    y = p.set_initial_point()
+    for c in [(x0 - xs) ** 2 <= R ** 2, y ** 2 == 1, y * (x0 - xs) == 0, y * g0 == 0]:
+        p.set_initial_condition(c)
+    p.set_performance_metric((x1 - xs) ** 2)
+    return p, dict(points=[x0, x1, y], exprs=[(x1 - xs) ** 2, y * y], funcs=[f], scale=R * R)
+
+
 def T_prox_convex(rng, v=0):
     from PEPit import PEP
     from PEPit.functions import ConvexFunction
@@ -283,8 +321,8 @@ def T_unbounded(rng, v=0):
     return p, dict(points=[x0, x1, x0 - x1], exprs=[f(x1), f(x1) - f(xs)], funcs=[f], constraints=[c], no_value=True, kind=kind)
 
 
-TEMPLATES = [T_gd_ssc, T_prox_convex, T_user_lmi, T_asym_lmi, T_quadratic, T_composite, T_qg, T_operator, T_blocks, T_linear, T_inexact]
-ALL = {t.__name__: t for t in TEMPLATES + [T_unbounded]}
+TEMPLATES = [T_gd_ssc, T_metrics, T_prox_convex, T_user_lmi, T_asym_lmi, T_quadratic, T_composite, T_qg, T_operator, T_blocks, T_linear, T_inexact]
+ALL = {t.__name__: t for t in TEMPLATES + [T_unbounded, T_scaled]}
 
 
 def build(name, seed):
